@@ -53,7 +53,7 @@ use std::sync::{Arc, RwLock};
 use std::task::{Context, Poll};
 
 pub type BoxFut = Pin<Box<dyn Future<Output = ()> + Send + 'static>>;
-type SpawnWrapper = Arc<dyn Fn(&'static str, BoxFut) -> BoxFut + Send + Sync>;
+type SpawnWrapper = Arc<dyn Fn(&str, BoxFut) -> BoxFut + Send + Sync>;
 
 static SPAWN_WRAPPER: RwLock<Option<SpawnWrapper>> = RwLock::new(None);
 static POINTS_ON: AtomicBool = AtomicBool::new(false);
@@ -65,7 +65,7 @@ pub fn set_spawn_wrapper(wrapper: Option<SpawnWrapper>) {
 }
 
 /// Called at instrumented `tokio::spawn` sites.
-pub fn wrap_spawn<F>(name: &'static str, future: F) -> BoxFut
+pub fn wrap_spawn<F>(name: &str, future: F) -> BoxFut
 where
     F: Future<Output = ()> + Send + 'static,
 {
